@@ -336,7 +336,8 @@ def aipsw_cells(chk, drv, rng, tier):
                                   'AIPSW RD/RR = standardization with only the %s side saturated' % side, case,
                                   signature=sig)
                             if not use_ay:
-                                c16.model_k(chk, drv, e, dfn, covs, g, stab, 'AIPSW', case)
+                                c16.model_k(chk, drv, e, dfn, covs, g, stab, 'AIPSW', case,
+                                            samp_model=sc if side == 'weights' else sub)
 
 
 def run(chk, drv, rng, tier):
